@@ -390,6 +390,7 @@ def shot_noise(img, method='poisson', seed=None):
     rng = np.random.default_rng(seed)
 
     if method == 'poisson':
+        counts = img
         try:
             img = rng.poisson(img)
         except ValueError as e:
@@ -399,6 +400,15 @@ def shot_noise(img, method='poisson', seed=None):
                 raise ValueError('Counts exceed max representable value')
             else:
                 raise e
+        # NumPy's Poisson sampler loses its acceptance test to rounding for
+        # very large rates (the variance is 1.4-1.7x the mean above ~1e15), so
+        # those counts are drawn from the normal limit, which is exact to
+        # better than one part in 1e6 there
+        lam = np.asarray(counts, dtype=float)
+        large = lam > 1e12
+        if np.any(large):
+            lam = np.where(large, lam, 0)
+            img = np.where(large, np.rint(rng.normal(loc=lam, scale=np.sqrt(lam))), img)
     else:
         # reject counts the normal approximation cannot represent before
         # drawing (sqrt of a negative count only yields NaN for arrays, which
